@@ -108,7 +108,13 @@ pub fn run(ctx: &Ctx) -> i32 {
     let stats = par_cases(ctx, "projects", n, Duration::from_secs(ctx.tier.pick(80, 900)), |i, rng, st| {
         let cfg = ProjCfg { allow_collisions: false, max_type_depth: 3, ..ProjCfg::default() };
         let pr = proj::project(rng, &cfg);
-        let pairs = pr.as_pairs();
+        let mut pairs = pr.as_pairs();
+        // one probe file per item: imports its qualified name and refers to it; the reference must resolve to
+        // that item with the item's kind, i.e. the file really is registered under package.Name
+        for (k, f) in pr.files.iter().enumerate() {
+            let q = f.doc.key();
+            pairs.push((format!("zz_probe{k}"), format!("package zz.probe; import {q}; parcelable Probe{k} {{ {q} f; }}")));
+        }
         let key = hash_str(&pairs.iter().map(|f| f.1.clone()).collect::<Vec<_>>().join("\u{1}"));
         let res = match libx::parse_project(&pairs) {
             Ok(r) => r,
@@ -142,11 +148,29 @@ pub fn run(ctx: &Ctx) -> i32 {
                 problems.push(format!("{}: generated well-formed file has no tree", f.id));
             }
         }
+        for (k, f) in pr.files.iter().enumerate() {
+            let q = f.doc.key();
+            let want = match f.doc.item.kind {
+                ItemKind::Interface => ast::ResolvedItemKind::Interface,
+                ItemKind::Parcelable => ast::ResolvedItemKind::Parcelable,
+                ItemKind::Enum => ast::ResolvedItemKind::Enum,
+            };
+            if let Some(a) = res.valid.get(&format!("zz_probe{k}")).and_then(|r| r.ast.as_ref()) {
+                if let ast::Item::Parcelable(p) = &a.item {
+                    if let Some(ast::ParcelableElement::Field(fl)) = p.elements.first() {
+                        st.inc("registration_probes");
+                        if fl.field_type.kind != ast::TypeKind::ResolvedItem(q.clone(), want.clone()) {
+                            problems.push(format!("{}: a reference to `{q}` (imported) resolves to {:?}: the file is not registered under its item's qualified name with its kind {:?}", f.id, fl.field_type.kind, want));
+                        }
+                    }
+                }
+            }
+        }
         if st.want_sample() && pairs.len() > 1 && pairs.iter().all(|f| f.1.len() < 500) {
             st.sample(json!({"files": pairs}));
         }
         if let Some(p0) = problems.first() {
-            let sig = if p0.contains("item symbol: qualified") { "item-qualified-name" } else { "symbol-name" };
+            let sig = if p0.contains("item symbol: qualified") { "item-qualified-name" } else if p0.contains("not registered") { "registration-key" } else { "symbol-name" };
             st.violate("projects", i, sig, p0.chars().take(500).collect(), json!({"files": pairs, "problems": problems}));
         }
     });
